@@ -82,6 +82,8 @@ type qmsg struct {
 	delivered string // "", public, error
 	evidence  []string
 	turnstone bool
+	gasEst    uint64
+	needsGas  bool
 }
 
 type obs struct {
@@ -109,6 +111,10 @@ type msgTrack struct {
 	deliver   string
 	deliverAt int64
 	ev        []planEv
+	estimate  bool // pigeons estimate gas for it (-> elected estimate)
+	sign      bool // ... and sign it afterwards
+	estSent   map[int]bool
+	signSent  map[int]bool
 	recorded  map[int]int // validator -> proof group (accepted MsgAddEvidence)
 	delivered string
 	done      bool
@@ -260,7 +266,8 @@ func (m *mon) observe() obs {
 				continue
 			}
 			for _, qm := range msgs {
-				e := qmsg{queue: q, id: qm.GetId(), addedAt: qm.GetAddedAtBlockHeight(), turnstone: sub == "evm-turnstone-message"}
+				e := qmsg{queue: q, id: qm.GetId(), addedAt: qm.GetAddedAtBlockHeight(), turnstone: sub == "evm-turnstone-message",
+					gasEst: qm.GetGasEstimate(), needsGas: qm.GetRequireGasEstimation()}
 				if qm.GetPublicAccessData() != nil {
 					e.delivered = "public"
 				} else if qm.GetErrorData() != nil {
@@ -1072,6 +1079,54 @@ func pruneHeight(addedAt int64) int64 {
 	return hp
 }
 
+// refreshShares: planning works on the shares of the current snapshot (validators outside the
+// snapshot - jailed ones - count nothing and cannot attest anyway).
+func (m *mon) refreshShares() {
+	if m.cur.snap == nil {
+		return
+	}
+	idx := map[string]int{}
+	for i, v := range m.w.Vals {
+		idx[v.ValBech()] = i
+	}
+	st := make([]int64, len(m.w.Vals))
+	tot := int64(0)
+	for _, sv := range m.cur.snap.Validators {
+		if i, ok := idx[sdk.ValAddress(sv.Address).String()]; ok && sv.ShareCount.IsInt64() {
+			st[i] = sv.ShareCount.Int64()
+			tot += st[i]
+		}
+	}
+	if tot > 0 {
+		m.stake, m.total = st, tot
+	}
+}
+
+// justBelow returns the subset with the largest share that is still below num/den of the total.
+func (m *mon) justBelow(num, den int64) ([]int, bool) {
+	n := len(m.stake)
+	best := int64(-1)
+	var bestPick []int
+	for mask := 1; mask < 1<<n; mask++ {
+		sum := int64(0)
+		var pick []int
+		ok := true
+		for i := 0; i < n; i++ {
+			if mask&(1<<i) != 0 {
+				if m.stake[i] == 0 {
+					ok = false
+				}
+				sum += m.stake[i]
+				pick = append(pick, i)
+			}
+		}
+		if ok && sum*den < m.total*num && sum > best {
+			best, bestPick = sum, pick
+		}
+	}
+	return bestPick, best > 0
+}
+
 // subset picks validators whose stake share lies in [lo, hi] (per-mille of the total, inclusive).
 func (m *mon) subset(loPM, hiPM int64) ([]int, bool) {
 	n := len(m.stake)
@@ -1080,7 +1135,7 @@ func (m *mon) subset(loPM, hiPM int64) ([]int, bool) {
 		var pick []int
 		sum := int64(0)
 		for _, i := range perm {
-			if (sum+m.stake[i])*1000 <= hiPM*m.total {
+			if m.stake[i] > 0 && (sum+m.stake[i])*1000 <= hiPM*m.total {
 				pick = append(pick, i)
 				sum += m.stake[i]
 			}
@@ -1102,13 +1157,17 @@ func (m *mon) exactShare(num, den int64) ([]int, bool) {
 	for mask := 1; mask < 1<<n; mask++ {
 		sum := int64(0)
 		var pick []int
+		ok := true
 		for i := 0; i < n; i++ {
 			if mask&(1<<i) != 0 {
+				if m.stake[i] == 0 {
+					ok = false
+				}
 				sum += m.stake[i]
 				pick = append(pick, i)
 			}
 		}
-		if sum*den == m.total*num {
+		if ok && sum*den == m.total*num {
 			hits = append(hits, pick)
 		}
 	}
@@ -1120,7 +1179,10 @@ func (m *mon) exactShare(num, den int64) ([]int, bool) {
 
 func (m *mon) planMessage(q qmsg, h int64) *msgTrack {
 	r := m.r
-	mt := &msgTrack{key: fmt.Sprintf("%s|%d", q.queue, q.id), queue: q.queue, id: q.id, addedAt: q.addedAt, recorded: map[int]int{}}
+	mt := &msgTrack{key: fmt.Sprintf("%s|%d", q.queue, q.id), queue: q.queue, id: q.id, addedAt: q.addedAt, recorded: map[int]int{},
+		estSent: map[int]bool{}, signSent: map[int]bool{}}
+	mt.estimate = r.Intn(10) < 6
+	mt.sign = mt.estimate && r.Intn(2) == 0
 	for i, ch := range m.w.Chains {
 		if strings.Contains(q.queue, "/"+ch+"/") || strings.Contains(q.queue, ch) {
 			mt.chain, mt.chainIdx = ch, i
@@ -1142,7 +1204,8 @@ func (m *mon) planMessage(q qmsg, h int64) *msgTrack {
 	}
 	mt.deliver = []string{"public", "public", "public", "error"}[r.Intn(4)]
 	mt.deliverAt = h + 1 + int64(r.Intn(40))
-	classes := []string{"none", "below10", "below10", "exact10", "exact10", "low", "low", "mid", "mid", "split", "split", "undelivered-evidence", "undelivered-none"}
+	m.refreshShares()
+	classes := []string{"none", "below10", "just-below10", "just-below10", "exact10", "exact10", "low", "low", "mid", "mid", "split", "split", "undelivered-evidence", "undelivered-none"}
 	mt.class = classes[r.Intn(len(classes))]
 	add := func(vals []int, group int) {
 		for _, v := range vals {
@@ -1153,6 +1216,12 @@ func (m *mon) planMessage(q qmsg, h int64) *msgTrack {
 	case "none":
 	case "below10":
 		if s, ok := m.subset(1, 99); ok {
+			add(s, 0)
+		} else {
+			mt.class = "none"
+		}
+	case "just-below10":
+		if s, ok := m.justBelow(1, 10); ok {
 			add(s, 0)
 		} else {
 			mt.class = "none"
@@ -1179,6 +1248,9 @@ func (m *mon) planMessage(q qmsg, h int64) *msgTrack {
 		perm := r.Perm(len(m.stake))
 		var a, b int64
 		for _, i := range perm {
+			if m.stake[i] == 0 {
+				continue
+			}
 			g := 0
 			if a > b {
 				g = 1
@@ -1260,9 +1332,29 @@ func (m *mon) pigeonMessageOps(h int64) {
 		if mt.done {
 			continue
 		}
-		if _, live := m.cur.msgs[k]; !live {
+		q, live := m.cur.msgs[k]
+		if !live {
 			mt.done = true
 			continue
+		}
+		// the ordinary life of a message: gas estimates -> election -> signatures
+		if mt.estimate && q.needsGas && q.gasEst == 0 {
+			for vi, v := range w.Vals {
+				if !mt.estSent[vi] && !m.cur.jailed[vi] && r.Intn(10) < 3 {
+					mt.estSent[vi] = true
+					m.outbox[vi] = append(m.outbox[vi], outMsg{notBefore: h, kind: "msg-gas-estimate", msg: world.MsgEstimate(v, mt.queue, mt.id, uint64(250_000+r.Intn(5)*10_000))})
+				}
+			}
+		}
+		if mt.sign && (q.gasEst > 0 || !q.needsGas) {
+			for vi, v := range w.Vals {
+				if !mt.signSent[vi] && !m.cur.jailed[vi] && r.Intn(10) < 3 {
+					mt.signSent[vi] = true
+					if sm, err := world.MsgSign(m.c, v, mt.queue, mt.id); err == nil && len(sm.SignedMessages) > 0 {
+						m.outbox[vi] = append(m.outbox[vi], outMsg{notBefore: h, kind: "msg-sign", msg: sm})
+					}
+				}
+			}
 		}
 		if mt.deliver != "none" && mt.delivered == "" && h >= mt.deliverAt {
 			vi := r.Intn(len(w.Vals))
